@@ -159,7 +159,7 @@ PROPS = {
     },
     "C12": {
         "title": "clock arithmetic to the second and Julian-date<->clock conversion are exact",
-        "mc": {"quick": [{"module": "MC_Clock", "cfg": "MC_Clock.cfg", "workers": 4}]},
+        "mc": {"quick": [{"module": "MC_TimeCarry", "cfg": "MC_TimeCarry.cfg", "workers": 2}, {"module": "MC_Clock", "cfg": "MC_Clock.cfg", "workers": 4}]},
         "rule": "seeded SolarTime::next(n) from special days (month/year ends, leap days, both sides of the 1582 gap, range ends) and random days with n from +-1 s to +-10^9 s; pairs for subtract/is_before/is_after/==; round trips through the Julian date; "
                 "Julian dates on a millisecond grid (x.000 .250 .499 .501 .750 .999) around hh:59:59 / 23:59:59 on those days (quick ~12k events, thorough x25). "
                 "Non-trivial: additions that change the day, pairs on different days, Julian dates that round up",
